@@ -321,6 +321,41 @@ Definition run_net (c : scfg) (o : oracles) (chunks : list str) (f : fin_kind)
 (** Flat reply stream as a client sees it. *)
 Definition replies_of (tr : list entry) : list rline := concat (map (fun e => snd (fst e)) tr).
 
+(** ** Writes that fail
+
+    From some reply line on the server cannot write any more (the client closed its side or
+    stopped reading). Session.send records the error and goes on: the loop iteration in progress
+    runs to its end - state changes, even a delivery - and the loop is left before the next item.
+    The 354 of a DATA command is written by dataHandler, i.e. in the iteration that reads the
+    block, so a failing 354 does not keep the block from being read and delivered.
+    [budget] = number of reply lines (after the greeting) that can still be written. *)
+Definition iteration_lines (e : entry) : nat :=
+  match e with
+  | (L (DataC _), [(354%Z, _)], _) => 0
+  | (B _, r, _) => S (length r)
+  | (_, r, _) => length r
+  end.
+Fixpoint iterations_run (budget : nat) (tr : list entry) : nat :=
+  match tr with
+  | [] => 0
+  | e :: rest =>
+      if (iteration_lines e <=? budget)%nat then S (iterations_run (budget - iteration_lines e) rest)
+      else 1                                        (* the failing iteration still runs to its end *)
+  end.
+(** The session over a connection whose writes fail after [wl] lines counting the greeting
+    ([None] = never): the transcript of the iterations that run, and the reply lines the client
+    receives. A failing greeting ends the session before the loop. *)
+Definition run_net_w (c : scfg) (o : oracles) (chunks : list str) (f : fin_kind) (wl : option nat)
+  : list item * list entry * list rline :=
+  let '(its, tr, _) := run_net c o chunks f in
+  match wl with
+  | None => (its, tr, replies_of tr)
+  | Some O => ([], [], [])
+  | Some (S b) =>
+      let n := iterations_run b tr in
+      (firstn n its, firstn n tr, firstn b (replies_of (firstn n tr)))
+  end.
+
 (** Re-attach an observed flat reply stream to the items: one group per line, one line per
     completed block, nothing for EOF. Used to evaluate the dialogue specifications on what the
     implementation answered. *)
